@@ -123,6 +123,7 @@ def panicSites : List String := [
   "gtfs.parseStartTime: index startTimeMatch[2]  [guard: regex-match]",
   "gtfs.parseStartTime: index startTimeMatch[3]  [guard: regex-match]",
   "gtfs.parseStops: index stops[i]  [guard: range-index]",
+  "gtfs.parseStops: index stops[i]  [unguarded: gtfs: index []gtfs.Stop]",
   "gtfs.parseStops: index stops[parentStopIndex]  [unguarded: gtfs: index []gtfs.Stop]",
   "gtfs.parseTransfers: index stops[i]  [guard: range-index]",
   "gtfs.parseTripUpdate: deref *stopTimeEvent.Delay  [guard: nil-checked]",
